@@ -6,6 +6,7 @@ from .. import harness as H, snap as S
 from ..evidence import Run, canon_hash
 from ..gen import build as B, parse as P
 from . import common as C
+from ..model import match_regex as M_match
 
 PID = "C03"
 SHARDS = {"quick": 4, "thorough": 16}
@@ -54,6 +55,29 @@ def classify(spec, table, backend, kind, out2, diff=None, res=None):
                 list(res.columns).count(c["name"]) > [t["name"] for t in table["columns"]].count(c["name"])
                 for c in table["columns"]):
         return "add_missing_columns-multiplies-repeated-column-labels"
+    import re as _re
+    m = _re.match(r"^\$(\[3\]\[(\d+)\]\[0\]|\[2\]): 'Int64' != 'int64'", diff or "")
+    na_coerced = False
+    if backend == "pandas" and spec["kind"] == "frame":
+        for fs in spec["columns"]:
+            for c in table["columns"]:
+                if (c["name"] == fs["name"] or (fs["regex"] and M_match(fs["name"], c["name"]))) \
+                        and c["phys"] == "Int64" and None in c["values"] \
+                        and (fs.get("coerce") or spec.get("coerce")):
+                    na_coerced = True
+    if backend == "pandas" and kind == "revalidation-changes-result" and spec.get("drop_invalid_rows") \
+            and (m or na_coerced):
+        # a column whose coercion failed keeps its input dtype although the
+        # offending rows were dropped
+        return "drop_invalid_rows-after-failed-coercion-leaves-column-uncoerced"
+    if backend == "pandas" and kind == "result-rejected-by-stripped-schema" and reasons == ["DUPLICATES"] \
+            and spec.get("unique") and any(c.get("parser") and c["name"] in spec["unique"]
+                                           for c in spec["columns"]):
+        return "joint-unique-checked-before-column-parsers-run"
+    if backend.startswith("polars") and kind == "result-rejected-by-stripped-schema" \
+            and spec.get("drop_invalid_rows") and reasons == ["SERIES_CONTAINS_NULLS"] \
+            and any(c.get("regex") and not c["nullable"] for c in spec["columns"]):
+        return "polars-drop_invalid_rows-skips-null-failures-of-regex-columns"
     if backend == "pandas" and kind == "revalidation-changes-result" and spec.get("drop_invalid_rows") \
             and spec["kind"] == "frame" and diff and diff.startswith("$[3]["):
         try:
@@ -81,6 +105,12 @@ def completeness(run, spec, table, opts, muts, out, backend):
     if muts or any(o.startswith("inexact:") for o in opts) or spec.get("unique") \
             or out.kind == "exc":
         return False
+    for c in table["columns"]:
+        if c["phys"] == "Int64" and None in c["values"]:
+            return False      # <NA> cannot be coerced to numpy int64: legitimate rejection
+    for l in (table.get("index") or {}).get("levels", []):
+        if l["phys"] == "Int64" and None in l["values"]:
+            return False
     fields = spec["columns"] if spec["kind"] == "frame" else [spec["field"]]
     if any(fs["unique"] and fs.get("default") is not None for fs in fields):
         return False      # a default may collide with an existing value
@@ -211,7 +241,7 @@ def run(run, ctx):
     for i in ctx.cases(N[ctx.tier]):
         rng = ctx.rng(PID, i)
         if i % 3 == 2:
-            spec, table, opts, muts = P.gen_parse_case(rng, neutral=True)
+            spec, table, opts, muts = P.gen_parse_case(rng, neutral=True, neutral_regex=True)
             polars_case(run, spec, table, opts, muts, lazyframe=(i % 2 == 0))
         else:
             spec, table, opts, muts = P.gen_parse_case(rng)
